@@ -145,6 +145,7 @@ func Load(withSSA bool, goos, goarch, tags string) (*Program, error) {
 		}
 		prog.CG = vta.CallGraph(ssautil.AllFunctions(sp), cha.CallGraph(sp))
 	}
+	resolveEngineFields(prog)
 	return prog, nil
 }
 
